@@ -72,4 +72,18 @@ NeverWrongData == \A i \in DOMAIN hist : hist[i].kind = "data" => hist[i].out = 
 LoadableAfter == \A i \in DOMAIN hist : hist[i].kind = "data" => hist[i].file = Intact(hist[i].req)
 NoReadError == \A i \in DOMAIN hist : hist[i].kind # "read_error"
 CfgsC12 == {"c1", "c2"}
+
+\* ---------------------------------------------------------------- progress (liveness, beyond the listed properties)
+\* a request is a finite straight-line program: it is never stuck, every step brings it closer to its end (at most 6 + W steps),
+\* and unless the process is killed it ends - with data or with the documented mismatch error, never by retrying forever.
+RequestSteps == Exists \/ Read \/ GenData \/ Diff \/ Write \/ Return
+NoStuckRequest == pc # "idle" => ENABLED RequestSteps
+Left == CASE pc = "idle" -> 0 [] pc = "ret" -> 1 [] pc = "save" -> 1 + (W - wr) [] pc = "diff" -> 2 + W
+          [] pc = "gen" -> 3 + W [] pc = "read" -> 4 + W [] pc = "exists" -> 5 + W [] OTHER -> 0
+RequestMakesProgress == [][pc # "idle" => Left' < Left]_cvars
+FairSpec == Spec /\ WF_cvars(RequestSteps)
+EveryRequestEnds == (pc # "idle") ~> (pc = "idle")
+\* the cache heals: immediately after a request returned data, a request for the same configuration is a HIT (it reads, it does
+\* not generate) as long as no fault touches the file in between
+HitAfterReturn == [][(pc = "read" /\ file[req] = Intact(req)) => (loaded' /\ out' = req) \/ pc' = "idle"]_cvars
 ==============================================================================
